@@ -60,6 +60,14 @@ pub fn run_c06(o: &Opts) -> Report {
         };
         push_c06(&mut rep, &mut cases, &a, &b, stream, &mut rng);
     }
+    // wide unordered containers (also nested): rebuilt along another insertion order, and one element changed
+    for k in 0..6 {
+        let a = wide_unordered(&mut rng, &g, k);
+        let b = rebuild(&a, &mut rng);
+        push_c06(&mut rep, &mut cases, &a, &b, "wide-rebuild", &mut rng);
+        let c = perturb(&a, &mut rng, &g);
+        push_c06(&mut rep, &mut cases, &a, &c, "wide-perturb", &mut rng);
+    }
     // near misses of the symmetric statements: repeated operands, one operand shared (either side, both orders of ==),
     // and of the set-like constructors: one element replaced / duplicated
     for k in [22usize, 24, 29] {
@@ -111,6 +119,16 @@ pub fn run_c06(o: &Opts) -> Report {
             both(&mut rep, &mut cases, &Term::new_conjunction(v.clone()), &Term::new_conjunction(w.clone()), &mut rng);
             both(&mut rep, &mut cases, &Term::new_product(v.clone()), &Term::new_product(w.clone()), &mut rng);
             both(&mut rep, &mut cases, &Term::new_conjunction_sequential(v.clone()), &Term::new_conjunction_sequential(w.clone()), &mut rng);
+        }
+    }
+    // images that differ only in the placeholder index (same components)
+    for _ in 0..4 {
+        let v: Vec<Term> = (0..rng.range(1, 3)).map(|_| g.term(&mut rng, 3)).collect();
+        for i in 0..=v.len() {
+            for j in 0..=v.len() {
+                push_c06(&mut rep, &mut cases, &Term::ImageExtension(i, v.clone()), &Term::ImageExtension(j, v.clone()), "image-index", &mut rng);
+                push_c06(&mut rep, &mut cases, &Term::new_product(vec![Term::ImageIntension(i, v.clone())]), &Term::new_product(vec![Term::ImageIntension(j, v.clone())]), "image-index-nested", &mut rng);
+            }
         }
     }
     rep.shards = write_shards(&o.outdir, "C06", "Nv.Run.TermRun", "mismatches_c06", "c06case", "N_scope", &cases, o.shards, "").unwrap();
@@ -247,6 +265,27 @@ fn collect_unordered_elems<'a>(t: &'a Term, out: &mut Vec<&'a Term>) {
     }
 }
 
+
+/// an unordered compound with many (9..40) components, alone or nested inside another unordered compound / symmetric
+/// statement: caps or truncations of the per-element hashing only show on wide containers
+fn wide_unordered(rng: &mut Rng, g: &TermGen, salt: usize) -> Term {
+    let n = 9 + rng.below(32);
+    let elems: Vec<Term> = (0..n).map(|k| if k % 7 == 3 { g.term(rng, 3) } else { Term::new_word(format!("w{}_{}", salt, k)) }).collect();
+    let inner = match rng.below(5) {
+        0 => Term::new_set_extension(elems),
+        1 => Term::new_set_intension(elems),
+        2 => Term::new_conjunction(elems),
+        3 => Term::new_intersection_extension(elems),
+        _ => Term::new_disjunction(elems),
+    };
+    match rng.below(4) {
+        0 => inner,
+        1 => Term::new_set_extension(vec![inner, g.atom(rng)]),
+        2 => Term::new_similarity(inner, g.atom(rng)),
+        _ => Term::new_conjunction_parallel(vec![g.atom(rng), inner, g.atom(rng)]),
+    }
+}
+
 pub fn run_c07(o: &Opts) -> Report {
     let mut rep = Report::new(
         "C07",
@@ -258,7 +297,13 @@ pub fn run_c07(o: &Opts) -> Report {
     let g = tgen(NameStyle::Mixed, if o.thorough { 6 } else { 5 }, 4, true);
     let mut cases = vec![];
     for i in 0..o.n {
-        let a = if i < 60 { g.term_of(&mut rng, 0, i % 30) } else { g.term(&mut rng, 0) };
+        let a = if i < 60 {
+            g.term_of(&mut rng, 0, i % 30)
+        } else if i % 25 == 0 {
+            wide_unordered(&mut rng, &g, i)
+        } else {
+            g.term(&mut rng, 0)
+        };
         rep.evaluations += 1;
         let ca = canon(&a);
         if has_unordered(&a) {
@@ -287,6 +332,28 @@ pub fn run_c07(o: &Opts) -> Report {
             }
         } else if canon(&a) == canon(&b) {
             rep.fail(Failure { stream: "equal-pairs".into(), what: "rebuilt term is not == to the original (C06) so hashing cannot be compared".into(), input: format!("{} vs {}", show(&a), show(&b)), expected: "equal".into(), got: "unequal".into(), known: None });
+        }
+        // whatever == says, equal terms must hash equally: near misses of symmetric statements (repeated operands) and
+        // images with the same components and another placeholder index must either be unequal or hash alike
+        if i % 10 == 0 {
+            let (x, y) = (g.term(&mut rng, 3), g.term(&mut rng, 3));
+            let mut pairs: Vec<(Term, Term)> = vec![
+                (Term::new_similarity(x.clone(), x.clone()), Term::new_similarity(x.clone(), y.clone())),
+                (Term::new_equivalence(x.clone(), y.clone()), Term::new_equivalence(y.clone(), y.clone())),
+                (Term::new_equivalence_concurrent(y.clone(), y.clone()), Term::new_equivalence_concurrent(x.clone(), y.clone())),
+                (Term::ImageExtension(0, vec![x.clone(), y.clone()]), Term::ImageExtension(2, vec![x.clone(), y.clone()])),
+                (Term::ImageIntension(1, vec![x.clone()]), Term::ImageIntension(0, vec![x.clone()])),
+            ];
+            pairs.push((Term::new_set_extension(vec![pairs[0].0.clone()]), Term::new_set_extension(vec![pairs[0].1.clone()])));
+            for (p, q) in pairs {
+                rep.evaluations += 1;
+                if p == q || q == p {
+                    let rs = std::collections::hash_map::RandomState::new();
+                    if rs.hash_one(&p) != rs.hash_one(&q) {
+                        rep.fail(Failure { stream: "near-miss-pairs".into(), what: "terms that compare equal hash differently".into(), input: format!("{} vs {}", show(&p), show(&q)), expected: "unequal, or equal hashes".into(), got: "== but different hashes".into(), known: None });
+                    }
+                }
+            }
         }
         // model case
         let feed = feed_of(&a);
@@ -473,7 +540,21 @@ fn lexical_c14(rep: &mut Report, rng: &mut Rng, o: &Opts) {
     ];
     for i in 0..(o.n / 2).max(90) {
         let (g, ef, lfmt) = &gs[i % 3];
-        let t = if i < 90 { g.term_of(rng, 1, i % 30) } else { g.term(rng, 0) };
+        let t = if i < 90 {
+            g.term_of(rng, 1, i % 30)
+        } else if i % 9 == 0 {
+            // nested unary / fixed-arity compounds directly inside each other (constructors that might normalise)
+            let x = g.term(rng, 3);
+            // built from the variants directly: a constructor that normalises must not hide the shape from the check
+            let neg = |t: Term| Term::Negation(Box::new(t));
+            match i % 27 {
+                0 => neg(neg(x)),
+                9 => neg(neg(neg(x))),
+                _ => Term::DifferenceExtension(Box::new(neg(neg(x.clone()))), Box::new(x)),
+            }
+        } else {
+            g.term(rng, 0)
+        };
         let s = ef.format_term(&t);
         let lx = match lfmt.parse_term(&s) {
             Ok(x) => x,
@@ -526,6 +607,8 @@ fn lexical_c14(rep: &mut Report, rng: &mut Rng, o: &Opts) {
 const NAME_POOL: &[&str] = &[
     "", "+", "+5", "-5", "0005", "0", "7", "42", "+0007", "18446744073709551615", "18446744073709551616", "+18446744073709551615",
     "99999999999999999999999", "１２", "٣", " 5", "5 ", "5a", "a", "a-b", "名", "++5", "+-5", "-0", "+0", "1_000", "0x10", "1e3", "1.0", "🦀",
+    // names that start with an atom prefix of some format (the accessor must report them back verbatim)
+    "^go", "^", "$x", "#y", "?z", "_w", "+1a", "\\$v", "某甲", "操作x", "^^", "$",
 ];
 
 pub fn run_c17(o: &Opts) -> Report {
